@@ -15,6 +15,7 @@ from ..engine import rule
 from ..model import Undecided
 from ..cfg import dotted, call_name, is_call, simple_name, unparse, const_value, contains, enclosing
 from ..flow import Defs, depends
+from ..decide import table, ret_kind
 from ..util import keyword, returns_of, calls_in, inside, order_key, str_variants, HOLE
 from .c05 import _location_pairs, _sql_sites
 
@@ -41,6 +42,12 @@ def _level_part_formats(ctx):
                     else:
                         if isinstance(last, ast.BinOp) and isinstance(last.op, ast.Mod) and isinstance(last.left, ast.Constant):
                             fmt = last.left.value
+        if name == 'level_location' and fmt is None:
+            # delegation: level_location(level, ..) = join(.., level_part(level))
+            rets = returns_of(fn.node)
+            last = [r.value.args[-1] for r in rets if is_call(r.value, 'os.path.join') and r.value.args]
+            if rets and len(last) == len(rets) and all(is_call(x, 'level_part') and len(x.args) == 1 and unparse(x.args[0]) == fn.params[0] for x in last):
+                passthrough, fmt = out['level_part']
         out[name] = (passthrough, fmt)
     return out
 
@@ -298,21 +305,30 @@ def c12d(ctx):
     ctx.check(bool(tw), 'cleanup:tilewalker-fallback', 'every other task is cleaned by the tile walk', fn)
     tc = ctx.fn('mapproxy/seed/cleanup.py:tilewalker_cleanup')
     g = tc.cfg
-    sets = g.find_stmts(lambda s: isinstance(s, ast.Assign) and unparse(s.targets[0]) == 'task.tile_manager._expire_timestamp')
-    ok = bool(sets) and all(unparse(g.stmt[n].value) == 'task.remove_timestamp' and
-                            g.guarded(n, lambda at: at.op is None and unparse(at.expr) == 'task.remove_all', False) for n in sets)
-    ctx.check(ok, 'tilewalker_cleanup:expire-timestamp', 'the stale test uses task.remove_timestamp unless remove_all', tc)
+    # abstract run over remove_all: the expiry threshold is set iff not remove_all, and the walker's handle_all is remove_all
+    def ev(st, truth):
+        if isinstance(st, ast.Assign) and unparse(st.targets[0]) == 'task.tile_manager._expire_timestamp':
+            return 'expire' if unparse(st.value) == 'task.remove_timestamp' else 'expire-other'
+        w = [x for x in ast.walk(st) if is_call(x, 'TileWalker')] if isinstance(st, (ast.Assign, ast.Expr)) else []
+        if w:
+            ha = keyword(w[0], 'handle_all')
+            return 'walker-all' if ha is not None and truth(ha) else 'walker-some'
+        return None
+    ev.wants_env = True
+    tab = ctx.rows(table(tc.node.body, ret_kind, event_of=ev))
+    ra = [a for a in tab.atoms if a == 'task.remove_all']
+    ok1 = ok2 = len(ra) == 1
+    for asg, out, events in tab.assignments():
+        if not ra:
+            break
+        ok1 = ok1 and (('expire' in events) == (not asg[ra[0]])) and 'expire-other' not in events
+        ok2 = ok2 and (('walker-all' in events) == asg[ra[0]]) and (('walker-some' in events) == (not asg[ra[0]]))
+    ctx.check(ok1, 'tilewalker_cleanup:expire-timestamp', 'the stale test uses task.remove_timestamp unless remove_all', tc)
     walker = [x for x in tc.walk() if is_call(x, 'TileWalker')]
     ok = bool(walker) and const_value(keyword(walker[0], 'handle_stale')) is True and const_value(keyword(walker[0], 'work_on_metatiles')) is False \
-        and unparse(keyword(walker[0], 'handle_all')) == 'handle_all'
+        and keyword(walker[0], 'handle_all') is not None
     ctx.check(ok, 'tilewalker_cleanup:walker-args', 'TileWalker(handle_stale=True, handle_all=<remove_all>, work_on_metatiles=False)', tc)
-    defs = Defs(tc.node)
-    ha = {(const_value(v)) for v, sel in defs.of('handle_all')}
-    g2 = tc.cfg
-    ok = ha == {True, False}
-    for n in g2.find_stmts(lambda s: isinstance(s, ast.Assign) and unparse(s.targets[0]) == 'handle_all' and const_value(s.value) is True):
-        ok = ok and g2.guarded(n, lambda at: at.op is None and unparse(at.expr) == 'task.remove_all', True)
-    ctx.check(ok, 'tilewalker_cleanup:handle-all-iff-remove-all', 'handle_all is True only for remove_all', tc)
+    ctx.check(ok2, 'tilewalker_cleanup:handle-all-iff-remove-all', 'handle_all is True only for remove_all', tc)
     pool = [x for x in tc.walk() if is_call(x, 'TileWorkerPool')]
     ok = bool(pool) and len(pool[0].args) > 1 and unparse(pool[0].args[1]) == 'TileCleanupWorker'
     ctx.check(ok, 'tilewalker_cleanup:worker', 'the worker is TileCleanupWorker', tc)
